@@ -166,10 +166,45 @@ def run(ctx):
                     pair = (sym_is_call(l, "Block<T>::len") and sym_is_call(r, "Block<T>::seal")) or (sym_is_call(r, "Block<T>::len") and sym_is_call(l, "Block<T>::seal"))
                     if pair and ((d[1] == "Ne" and lab is False) or (d[1] == "Eq" and lab is True)) and repr(strip_sym(l[2][0])) == blk and repr(strip_sym(r[2][0])) == blk:
                         waited, how = True, "len() == slots claimed at seal"
-            chk.ob("C05.b", f"{f.path} [wait before read #{n}]", waited, f"Block::data is reached only after {how} on the same block" if waited else "a block is read without waiting for its in-flight writes (claimed slots may be unwritten / later writes missed)", dc.loc())
+            # once a block has been sealed is_quiesced() is trivially true: the wait must then compare len() with the
+            # number of slots claimed at the seal
+            sealed_before = [c for c in nonforeign_calls(f) if c.fn is f and c.is_("Block<T>::seal") and b.dominates(c.bb, dc.bb) and repr(strip_sym(arg_syms(c)[0])) == blk]
+            if waited and sealed_before and how != "len() == slots claimed at seal":
+                waited = False
+                why = "the block is sealed before the wait, and is_quiesced() is trivially true for a sealed block: the clearer no longer waits for slots that were claimed but not yet written, and their values are lost"
+            else:
+                why = "a block is read without waiting for its in-flight writes (claimed slots may be unwritten / later writes missed)"
+            chk.ob("C05.b", f"{f.path} [wait before read #{n}]", waited, f"Block::data is reached only after {how} on the same block" if waited else why, dc.loc())
         nl = [o for o in atomic_ops(f) if o[1] == "load" and strip_sym(o[2])[0] == "field" and strip_sym(o[2])[2] in ("next", "tail")]
         ok = nl and all(x in ("Acquire", "SeqCst") for o in nl for x in orderings_in(o[3]))
         chk.ob("C05.b", f"{f.path} [traversal orderings]", ok, f"{len(nl)} tail/next loads, all >= Acquire" if ok else "tail/next is loaded with an ordering weaker than Acquire (a freshly linked block may be seen uninitialised)", f.loc())
+
+    ie = one_method(chk, "C05.b", u, BKT, "is_empty")
+    if ie:
+        b = ie.body
+        sy = Sym(ie)
+        rets = []
+        for i, k, st in b.stmts():
+            if st["k"] == "assign" and st["p"]["l"] == 0 and not st["p"].get("pr"):
+                rets.append((i, strip_sym(sy.rvalue(st["rv"], 0, frozenset()))))
+
+        def is_zero_test(v, callee):
+            return v[0] == "bin" and v[1] == "Eq" and ((sym_is_call(v[2], callee) and const_int(v[3]) == 0) or (sym_is_call(v[3], callee) and const_int(v[2]) == 0))
+
+        ok = False
+        for i, v in rets:
+            for first, second in (("Block<T>::len", "Block<T>::next_len"), ("Block<T>::next_len", "Block<T>::len")):
+                if is_zero_test(v, second) and any(lab is True and is_zero_test(strip_sym(d), first) for d, lab in gates(b, i)):
+                    ok = True
+        trues = [i for i, v in rets if v[:3] == ("const", "bool", True)]
+        ok_null = all(any(lab is True and sym_is_call(d, "is_null") for d, lab in gates(b, i)) for i in trues)
+        chk.ob("C05.b", ie.path, ok and ok_null, "is_empty() is true only for a null tail, or an empty tail block whose predecessor is empty too" if ok and ok_null else "is_empty() does not look at the block behind a fresh, still empty tail: it reports `empty` while completed pushes sit in the older blocks", ie.loc())
+    nlf = (u.method(BLK, "next_len") or [None])[0]
+    if nlf:
+        ops = [o for o in atomic_ops(nlf) if o[1] == "load"]
+        r = strip_sym(Sym(nlf).local(0))
+        ok = len(ops) == 1 and self_field(ops[0][2], "next") and orderings_in(ops[0][3])[0] in ("Acquire", "SeqCst") and "len" in sym_str(r)
+        chk.ob("C05.b", nlf.path, ok, "next_len() = len of the block loaded from `next` (Acquire), 0 if none" if ok else "next_len() does not report the length of the predecessor block", nlf.loc(), nontrivial=False)
 
     # ---------------- C05.c
     bpush = one_method(chk, "C05.c", u, BKT, "push")
